@@ -163,6 +163,13 @@ MergeW(srcs, alives, sizeOf, bs, w, sameCodec) ==
        IN MergeW(Tail(srcs), Tail(alives), sizeOf, bs, w1, sameCodec)
 MergeC(srcs, alives, sizeOf, bs, sameCodec) == CloseBlock(MergeW(srcs, alives, sizeOf, bs, EmptyW, sameCodec)).acc
 Merge(srcs, alives, sizeOf, bs) == MergeC(srcs, alives, sizeOf, bs, TRUE)
+\* the codec is a property of each SOURCE (the compressor of the index may have changed during its life): a
+\* source may be stacked only if ITS codec is the one of the merged store, whatever the other sources are
+RECURSIVE MergeWS(_, _, _, _, _, _)
+MergeWS(srcs, alives, sizeOf, bs, w, sames) ==
+  IF srcs = <<>> THEN w
+  ELSE MergeWS(Tail(srcs), Tail(alives), sizeOf, bs, MergeW(<<Head(srcs)>>, <<Head(alives)>>, sizeOf, bs, w, Head(sames)), Tail(sames))
+MergeS(srcs, alives, sizeOf, bs, sames) == CloseBlock(MergeWS(srcs, alives, sizeOf, bs, EmptyW, sames)).acc
 
 -----------------------------------------------------------------------------
 (* The machine: a writer adds documents and closes the store; a reader with an LRU cache of   *)
